@@ -1194,6 +1194,14 @@ func Run(c *ev.Ctx) int {
 			refusedPolicyPutLane(c, sc)
 		}(sc)
 	}
+	for _, sc := range []bool{false, true} {
+		wg.Add(1)
+		go func(sc bool) {
+			defer wg.Done()
+			copySourceSplitLane(c, sc)
+			bypassBatchLane(c, sc)
+		}(sc)
+	}
 	wg.Add(1)
 	go func(seed int64) {
 		defer wg.Done()
